@@ -17,12 +17,23 @@ pub struct Cap {
     pub fail: bool,
 }
 
+thread_local! {
+    /// (sink name of an appender, action): when that appender receives a record whose message is "outer" it runs
+    /// the action from inside `append` - an appender that logs while it is being logged to.
+    pub static NEST: std::cell::RefCell<Option<(String, Arc<dyn Fn()>)>> = std::cell::RefCell::new(None);
+}
+
 impl Append for Cap {
     fn append(&self, record: &log::Record) -> anyhow::Result<()> {
+        let msg = format!("{}", record.args());
+        let nested = if msg == "outer" { NEST.with(|n| n.borrow().as_ref().filter(|(a, _)| *a == self.name).map(|(_, f)| f.clone())) } else { None };
         self.sink
             .lock()
             .unwrap()
-            .push((self.name.clone(), format!("{}", record.args())));
+            .push((self.name.clone(), msg));
+        if let Some(f) = nested {
+            f();
+        }
         if self.fail {
             anyhow::bail!("verif: scripted appender failure in {}", self.name);
         }
